@@ -9,7 +9,8 @@ One JSON object per input line = one case, one JSON object per output line.
 ```
 {"k":"link","sm":"memory"|"file","rm":..,"sf":bool,"rf":bool,"sb":n,"rb":n,"evs":[Ev...]}
 Ev = {"e":"send"} | {"e":"burst","b":n} | {"e":"sendOther","n":k} | {"e":"deliver"} | {"e":"reconnect","c":bool}
-   | {"e":"cancel"} | {"e":"serialize","id":n,"p":["hex",..],"fail":bool} | {"e":"check","ck":null|"success"|..}
+   | {"e":"cancel"}  ({"e":"deliver","fin":true|false|null}: what `__loadDumpFile` does after a completed transfer)
+   | {"e":"serialize","id":n,"p":["hex",..],"fail":bool} | {"e":"check","ck":null|"success"|..}
    | {"e":"childStep"} | {"e":"childRun"} (all remaining child operations) | {"e":"sndInstall","d":"hex"}
    | {"e":"rcvSerialize",..} | {"e":"rcvCheck",..} | {"e":"rcvChildStep"} | {"e":"rcvChildRun"} | {"e":"rcvRestart","c":bool}
 ```
@@ -91,10 +92,11 @@ def jChunk : Option Chunk → Json
   | none => Json.null
 
 def jFS (fs : FS) : Json :=
-  Json.mkObj [("dump", jOptHex fs.dump), ("tmp", jOptHex fs.tmp), ("tmp1", jOptHex fs.tmp1)]
+  Json.mkObj [("dump", jOptHex fs.dump), ("tmp", jOptHex fs.tmp), ("tmp1", jOptHex fs.tmp1), ("snap", jOptHex fs.snap)]
 
 def parseFS (j : Json) : FS :=
-  { dump := optHex (getD j "dump"), tmp := optHex (getD j "tmp"), tmp1 := optHex (getD j "tmp1") }
+  { dump := optHex (getD j "dump"), tmp := optHex (getD j "tmp"), tmp1 := optHex (getD j "tmp1"),
+    snap := optHex (getD j "snap") }
 
 def insertSorted (p : Nat × Trans) : List (Nat × Trans) → List (Nat × Trans)
   | [] => [p]
@@ -104,17 +106,18 @@ def jSer (s : Ser) : Json :=
   let tr := s.trans.foldr insertSorted []
   Json.mkObj [("pid", Json.str (pidStr s.pid)), ("id", Json.num s.curId),
     ("dump", jOptHex s.fs.dump), ("tmp", jOptHex s.fs.tmp), ("tmp1", jOptHex s.fs.tmp1),
-    ("inc", Json.bool s.incOpen),
+    ("snap", jOptHex s.fs.snap), ("snapset", Json.bool s.incSnap), ("inc", Json.bool s.incOpen),
     ("trans", Json.arr (tr.map (fun p => Json.arr #[Json.num p.1, Json.num p.2.off, Json.str (hex p.2.data)])).toArray)]
 
 def nameStr : FName → String
-  | .dump => "dump" | .tmp => "tmp" | .tmp1 => "tmp1"
+  | .dump => "dump" | .tmp => "tmp" | .tmp1 => "tmp1" | .snap => "snap"
 
 def opStr : FsOp → String
   | .openW f => s!"openW {nameStr f}"
   | .write f b => s!"write {nameStr f} {hex b}"
   | .close f => s!"close {nameStr f}"
   | .rename s d => s!"rename {nameStr s} {nameStr d}"
+  | .remove f => s!"remove {nameStr f}"
 
 /-- one protocol event → model events (`childRun` expands to as many `childStep`s as the child has left) -/
 def parseEv (l : Link) (j : Json) : List Ev :=
@@ -122,7 +125,7 @@ def parseEv (l : Link) (j : Json) : List Ev :=
   | "send" => [.send]
   | "burst" => [.burst (getNat j "b")]
   | "sendOther" => [.sendOther (getNat j "n")]
-  | "deliver" => [.deliver]
+  | "deliver" => [.deliver (match getD j "fin" with | .bool b => some b | _ => none)]
   | "reconnect" => [.reconnect (getBool j "c")]
   | "cancel" => [.cancel]
   | "serialize" => [.serialize (getNat j "id") (parsePieces j "p") (getBool j "fail")]
@@ -146,9 +149,14 @@ def evOut (l : Link) : Ev → Json
   | .send => jChunk (l.snd.getTransmissionData peer).2
   | .burst b => Json.arr ((l.snd.burst peer b).2.map jChunk).toArray
   | .sendOther n => jChunk (l.snd.getTransmissionData (n + 1)).2
-  | .deliver => match l.chan with
+  | .deliver fin => match l.chan with
     | [] => Json.null
-    | c :: _ => Json.bool (l.rcv.setTransmissionData c).2
+    | c :: _ =>
+      let r := l.rcv.setTransmissionData c
+      -- [return value of setTransmissionData, return value of finishIncoming when it is called]
+      Json.arr #[Json.bool r.2, match fin with
+        | some a => if r.2 then Json.bool (r.1.finishIncoming a).2 else Json.null
+        | none => Json.null]
   | .serialize id p f => Json.bool (l.snd.serialize id p f).2
   | .rcvSerialize id p f => Json.bool (l.rcv.serialize id p f).2
   | .check ck =>
@@ -157,7 +165,9 @@ def evOut (l : Link) : Ev → Json
   | .rcvCheck ck =>
     let r := l.rcv.checkSerializing ck
     Json.arr #[Json.str (statusStr r.2.1), match r.2.2 with | some i => Json.num i | none => Json.null]
-  | .sndInstall d => Json.arr ((l.snd.feed [some ⟨d, true, false⟩, some ⟨[], false, true⟩]).2.map Json.bool).toArray
+  | .sndInstall d =>
+    let r := l.snd.feed [some ⟨d, true, false⟩, some ⟨[], false, true⟩]
+    Json.arr ((r.2 ++ [(r.1.finishIncoming true).2]).map Json.bool).toArray
   | _ => Json.null
 
 def runLink (j : Json) : Json := Id.run do
@@ -184,7 +194,10 @@ def runCrash (j : Json) : Json :=
        [Json.str (pidStr (s0.serialize 0 (parsePieces j "p") (getBool j "fail")).1.pid)])
     else
       let chunks := (getArr j "chunks").toList.map parseChunk
-      (s0.feedOps chunks, (s0.feed chunks).2.map Json.bool)
+      let r := s0.feed chunks
+      match getD j "fin" with
+      | .bool a => (s0.feedOps chunks ++ r.1.finishOps a, r.2.map Json.bool ++ [Json.bool (r.1.finishIncoming a).2])
+      | _ => (s0.feedOps chunks, r.2.map Json.bool)
   let images := (List.range (ops.length + 1)).map (fun k => jFS (fs.crashAt ops k))
   -- fork mode: status `checkSerializing` reports when the child is killed after k of its operations
   let killed : List Json :=
